@@ -15,7 +15,7 @@ Theorem guess_connects inp live s name from to c :
 Proof.
   unfold guess_audit_criteria. cbv zeta.
   destruct (cs_is_empty (suggested_criteria (resolve inp s) name from to)); intros H.
-  - right. apply suggested_criteria_spec. exact H.
+  - right. apply suggested_criteria_spec. change GUESS_SECOND_LOOK_USES_FROM with true in H. exact H.
   - left. apply suggested_criteria_spec. exact H.
 Qed.
 
